@@ -38,6 +38,10 @@ CLAIMED = {
          "Exploration: every row of every layered dictionary must report the POS strings of its CSV row and split references resolved to the model's rows of the same user dictionary or the system one; every morpheme's dictionary id / word number must name a row whose key is its surface; OOV morphemes report -1 and a configured POS; every declared POS is retrievable; all observations on system words are identical with and without user dictionaries; a 15th user dictionary must be refused with an error. No absence claim.",
          "User dictionaries are compiled against the bare system dictionary, the only way callers do it. No input-text plugin is configured so that key == surface.",
          "DESIGN.md section 4, C12"),
+ "C17": ("property-based testing (proptest): generated definition files against a union-of-covering-lines reference; point queries at all range ends and neighbours, random scalars, and (thorough) every scalar value",
+         "Exploration: for generated char.def files (overlapping, nested, adjacent, duplicated, single-point ranges around 0, the UTF-8 width boundaries, the surrogate gap and U+10FFFF; ALL and NOOOVBOW flags; comments and category lines) that load, the reported classes at every range end +-1, 0, U+10FFFF and 64 random scalars equal the union of covering lines (DEFAULT if none); the range iterator must be ordered, gap free and consistent with point queries. No absence claim.",
+         "Files the loader rejects (reversed range, range ending at U+D7FF or U+10FFFF, unknown class) are not judged: the statement speaks about files that load. The iterator is only checked for files with at least one range line.",
+         "DESIGN.md section 4, C17"),
  "C20": ("property-based testing (proptest): boundary-value generation of every plugin parameter against an explicit in-range predicate (load succeeds iff predicate); matrix differential and assertion-monitored analysis for accepted configurations",
          "Exploration: matrices n x m with provider ids / costs / inhibited pairs / unk.def lines drawn around {-32769, -32768, -1, 0, n-1, n, n+1, 32767, 32768, 65535, 65536} and POS present/absent x userPOS allow/forbid/missing; loading must return Ok exactly when the predicate holds and never panic; accepted configurations must leave every non-inhibited matrix cell untouched and analyse texts without tripping the matrix index assertions. No absence claim.",
          "Known finding F6a (Simple/Regex id equal to the matrix size accepted) is excluded by predicate and pinned. Left ids are compared with the second matrix dimension, right ids with the first (what the lattice indexes).",
